@@ -12,6 +12,10 @@ OBLIGATIONS = [
     ob('C03.notbetween.complement', BETW + 'c03_notbetween_complement', 'for all i64 x, a, b: the desugaring of `x not between a and b` evaluates to the negation of the desugaring of `x between a and b` (through the real int arm)', units=['cmp', 'between']),
     ob('C03.between.ops', BETW + 'c03_between_ops_are_comparisons', 'BETWEEN is desugared to plain comparison operators in both polarities', units=['cmp', 'between']),
 ]
+OBLIGATIONS.append(dict(id='C03.demorgan', engine='V', verus_fn='Parser::negate_expr_op', label='C03.demorgan', complete=True, bound=None, units=[], harness='verus:Parser::negate_expr_op', tier='quick',
+    desc='for condition trees of unbounded depth: sem(negate_expr_op(e)) == !sem(e) and the result is again a well-formed condition tree, where sem mirrors conforms (AND/OR over children, uninterpreted comparison atoms constrained only by atom(negate(op)) == !atom(op))'))
+OBLIGATIONS.append(dict(id='C03.negate.spec.V', engine='V', verus_fn='Op::negate', label=None, complete=True, bound=None, units=[], harness='verus:Op::negate', tier='quick',
+    desc='the real Op::negate equals the documented complement table (same table as the Kani contract; ties the atom axiom to the real function)'))
 CANARIES = [dict(harness=CMP + 'canary_cmp_must_fail', units=['cmp']), dict(harness=LOGIC + 'canary_logic_must_fail', units=['logic']),
             dict(harness=OPS + 'canary_ops_must_fail', units=['operators'])]
 ASSUMPTIONS = ['float arm: stated for non-NaN operands (IEEE comparisons with NaN are not complements)', 'date arm: start <= finish']
